@@ -106,16 +106,19 @@ Par(d, k, p) == IF p = 0 /\ k = "put" THEN cur[d] ELSE p
 
 (* would the gateway accept the write now (Put: matchRev must be a leaf, IsIllegalConflict; the environment only sends what a
    client holding revision p can send: a stub repeats an attachment that p carries and whose data the gateway still has) *)
-Legal(d, k, p, s) ==
+LegalKP(d, k, p) ==
   LET t == tree[d] IN
-  /\ CASE k = "put"  -> \/ p = 0 /\ (IF DOMAIN t = {} THEN TRUE ELSE t[cur[d]].d)
-                        \/ p \in Leaves(t) /\ ~t[p].d /\ (allow \/ p = cur[d])
-       [] k = "del"  -> p \in Leaves(t) /\ ~t[p].d /\ (allow \/ p = cur[d]) /\ Carried(s) = {}
-       [] k = "push" -> IF allow THEN p = 0 \/ (p \in DOMAIN t /\ ~t[p].d)
-                        ELSE (p = 0 /\ DOMAIN t = {}) \/ (p # 0 /\ p = cur[d] /\ ~t[p].d)
+  CASE k = "put"  -> \/ p = 0 /\ (IF DOMAIN t = {} THEN TRUE ELSE t[cur[d]].d)
+                     \/ p \in Leaves(t) /\ ~t[p].d /\ (allow \/ p = cur[d])
+    [] k = "del"  -> p \in Leaves(t) /\ ~t[p].d /\ (allow \/ p = cur[d])
+    [] k = "push" -> IF allow THEN p = 0 \/ (p \in DOMAIN t /\ ~t[p].d)
+                     ELSE (p = 0 /\ DOMAIN t = {}) \/ (p # 0 /\ p = cur[d] /\ ~t[p].d)
+LegalS(d, k, p, s) ==
+  /\ (k = "del" => Carried(s) = {})
   /\ \A n \in Names : s[n] = -1 =>
-        /\ p # 0 /\ p \in Leaves(t) /\ p \in DOMAIN want /\ n \in DOMAIN want[p]
+        /\ p # 0 /\ p \in Leaves(tree[d]) /\ p \in DOMAIN want /\ n \in DOMAIN want[p]
         /\ n \in DOMAIN atts[d][p] /\ <<d, atts[d][p][n].c>> \in blob
+Legal(d, k, p, s) == LegalKP(d, k, p) /\ LegalS(d, k, p, s)
 
 (* the list recorded for the new revision: New = digest of the data, revpos = its generation; Stub = the parent's entry *)
 NewList(d, r, p, s, g) ==
@@ -124,8 +127,9 @@ NewList(d, r, p, s, g) ==
 
 (* ImplCommit: the document afterwards (tree nt, winner nc are parameters: the model adds the revision, the trace gives the recorded
    tree, which may also have been pruned), the lists, and the sweep.  A document hit by the named deviation is not described. *)
+GenOf(x) == IF x \in DOMAIN gen THEN gen[x] ELSE 0
 ImplCommit(d, k, r, p, s, h, nt, nc, dirty) ==
-  LET g  == Ov(gen, r :> gen[Par(d, k, p)] + 1)
+  LET g  == Ov(gen, r :> GenOf(Par(d, k, p)) + 1)
       na == [l \in Leaves(nt) |-> IF l = r THEN NewList(d, r, p, s, g) ELSE IF l \in DOMAIN atts[d] THEN atts[d][l] ELSE <<>>]
       A  == [atts EXCEPT ![d] = na]
       gone == IF eccv THEN {} ELSE {<<d, c>> : c \in Refs(atts[d]) \ Refs(na)}
@@ -153,13 +157,13 @@ Room == Len(hist) < (IF pend = None THEN MaxSteps ELSE MaxSteps - 1)       \* a 
 (* ---- a complete write ---- *)
 ImplWrite(d, k, r, p, s, h) ==
   LET nt == AddRev(tree[d], r, Par(d, k, p), k = "del")
-      g  == Ov(gen, r :> gen[Par(d, k, p)] + 1)
+      g  == Ov(gen, r :> GenOf(Par(d, k, p)) + 1)
       c  == Ov(cls, r :> (IF k = "push" THEN (IF h = 1 THEN 2 ELSE 0) ELSE 1))
   IN /\ nr' = r
      /\ \E nc \in WinnersOf(nt, g, c) : ImplCommit(d, k, r, p, s, h, nt, nc, FALSE)
      /\ inner' = (IF pend = None THEN 0 ELSE inner + 1) /\ UNCHANGED pend
 WriteOK(d, k, p, s, h) ==
-  /\ Room /\ d \in Docs \ tainted /\ k \in Kinds /\ s \in Shapes /\ h \in {0, 1} /\ (k # "push" => h = 0)
+  /\ Room /\ d \notin tainted /\ (k # "push" => h = 0)
   /\ (pend # None => inner < MaxInner)
   /\ Legal(d, k, p, s) = TRUE          \* "= TRUE": evaluated as a value (TLC would split the disjunctions of an action conjunct)
 Write(d, k, p, s, h) ==
@@ -175,7 +179,7 @@ ImplBegin(d, k, r, p, s, h) ==
 GhostIdle == UNCHANGED <<want, residue, tainted, dev>> /\ settled' = FALSE
 Begin(d, k, p, s, h) ==
   /\ Brackets /\ pend = None /\ Len(hist) < MaxSteps - 1
-  /\ d \in Docs \ tainted /\ k \in Kinds /\ s \in Shapes /\ h \in {0, 1} /\ (k # "push" => h = 0) /\ Legal(d, k, p, s) = TRUE
+  /\ d \notin tainted /\ (k # "push" => h = 0) /\ Legal(d, k, p, s) = TRUE
   /\ ImplBegin(d, k, nr + 1, p, s, h) /\ GhostIdle
   /\ Step("B", d, k, nr + 1, p, s, h)
 
@@ -190,7 +194,7 @@ ImplEnd(ok) ==
   /\ IF ok
      THEN LET q == pend
               nt == AddRev(tree[q.d], q.r, Par(q.d, q.k, q.p), q.k = "del")
-              g  == Ov(gen, q.r :> gen[Par(q.d, q.k, q.p)] + 1)
+              g  == Ov(gen, q.r :> GenOf(Par(q.d, q.k, q.p)) + 1)
               c  == Ov(cls, q.r :> (IF q.k = "push" THEN (IF q.h = 1 THEN 2 ELSE 0) ELSE 1))
           IN /\ \E nc \in WinnersOf(nt, g, c) : ImplCommit(q.d, q.k, q.r, q.p, q.s, q.h, nt, nc, FALSE)
              /\ UNCHANGED nr
@@ -204,8 +208,12 @@ End ==
 
 Parents(d) == DOMAIN tree[d] \cup {0}
 Next ==
-  \/ \E d \in Docs, k \in Kinds, s \in Shapes, h \in {0, 1} : \E p \in Parents(d) :
-        (Write(d, k, p, s, h) \/ Begin(d, k, p, s, h)) /\ UNCHANGED conf
+  \/ /\ Len(hist) < MaxSteps
+     /\ \E d \in Docs \ tainted, k \in Kinds : \E p \in Parents(d) :
+          /\ LegalKP(d, k, p) = TRUE
+          /\ \E s \in Shapes, h \in (IF k = "push" THEN {0, 1} ELSE {0}) :
+                /\ LegalS(d, k, p, s) = TRUE
+                /\ (Write(d, k, p, s, h) \/ Begin(d, k, p, s, h)) /\ UNCHANGED conf
   \/ Touch \/ End
 Spec == Init /\ [][Next]_vars
 
